@@ -63,3 +63,14 @@ Theorem C05_no_extension_of_lifetime : forall lower c pol_of host bs st s,
   | Some s' => s_lifetime_dl s' = s_lifetime_dl s | None => True end.
 Proof. exact browser_lifetime_fixed. Qed.
 Print Assumptions C05_no_extension_of_lifetime.
+
+(* Information, outside the property's quantifier (one browser, requests one at a time): replaying
+   the same pre-outage cookie obtains a fresh grace period each time; only the lifetime bounds it. *)
+From V Require Import ProxyExamples.
+Theorem C05_replay_restarts_grace_note :
+  let evs := [ex_login; Tick 700; req (CkIssued 0) outage_ans; Tick 4000] in
+  served (respond_at [ex_login; Tick 700] (CkIssued 0) outage_ans) = true /\
+  served (respond_at evs (CkIssued 0) outage_ans) = true /\
+  served (respond_at evs (CkIssued 1) outage_ans) = false.
+Proof. exact replay_restarts_grace. Qed.
+Print Assumptions C05_replay_restarts_grace_note.
